@@ -206,10 +206,14 @@ func init() {
 			return ex.callPure(f.F.Fn, []Val{e}, f.F.Bind, c.st).L[0]
 		}
 		r := ex.freshConst("indexfunc", sInt)
-		iv := "i!if"
+		iv := ex.fresh("i!if")
 		ex.assume(and(app("<=", "(- 1)", r), app("<", r, s.L[2])))
 		ex.assume(imp(app(">=", r, "0"), pred(r)))
-		ex.assume("(forall ((" + iv + " Int)) " + imp(and(app("<=", "0", iv), app("<", iv, ite(app(">=", r, "0"), r, s.L[2]))), not(pred(iv))) + ")")
+		rec := &qRecord{seen: map[string]bool{}}
+		ex.qrec[iv] = rec
+		body := not(pred(iv))
+		delete(ex.qrec, iv)
+		ex.assume(orientQuant("forall", iv, and(app("<=", "0", iv), app("<", iv, ite(app(">=", r, "0"), r, s.L[2]))), body, rec))
 		return intVal(r)
 	})
 	reg("slices.Contains", func(c *callCtx) Val {
@@ -223,8 +227,12 @@ func init() {
 			}
 			return boolVal(or(ors...))
 		}
-		iv := "i!ct"
-		return boolVal("(exists ((" + iv + " Int)) " + and(app("<=", "0", iv), app("<", iv, s.L[2]), ex.valEq(ex.sliceLoad(c.st, s, iv), x)) + ")")
+		iv := ex.fresh("i!ct")
+		rec := &qRecord{seen: map[string]bool{}}
+		ex.qrec[iv] = rec
+		body := ex.valEq(ex.sliceLoad(c.st, s, iv), x)
+		delete(ex.qrec, iv)
+		return boolVal(orientQuant("exists", iv, and(app("<=", "0", iv), app("<", iv, s.L[2])), body, rec))
 	})
 	reg("slices.Clip", func(c *callCtx) Val {
 		s := c.args[0]
